@@ -43,7 +43,15 @@ var c08Variants = []string{
 }
 
 func c08Content(r *rand.Rand, name string) string {
-	tag := strings.NewReplacer("/", "_", ".", "_").Replace(name)
+	tag := strings.Map(func(c rune) rune {
+		if c >= 'a' && c <= 'z' || c >= 'A' && c <= 'Z' || c >= '0' && c <= '9' {
+			return c
+		}
+		if c > 127 {
+			return 'u'
+		}
+		return '_'
+	}, name)
 	v := c08Variants[r.Intn(len(c08Variants))]
 	if strings.Contains(v, "%[1]s") {
 		return fmt.Sprintf(v, tag)
@@ -74,6 +82,12 @@ func genC08(seed int64, tier string) *Scenario {
 		// saved, closed like the others); closing it must also withdraw what was shown for it
 		names = append(names, "/outside/o.lua")
 		sc.Knobs["outside"] = true
+	}
+	if r.Intn(5) == 0 {
+		// a file whose name the editor has to percent-encode in every URI it sends
+		special := []string{"my dir/f g.lua", "mod+x/a+b.lua", "ünï/文件.lua", "sub/d~(1).lua"}[r.Intn(4)]
+		names = append(names, special)
+		sc.Knobs["named"] = special
 	}
 	sort.Strings(names)
 	exists := map[string]bool{}
